@@ -1,6 +1,8 @@
 mod info;
 pub mod limits;
 mod move_orderer;
+#[cfg(rce_verif)]
+pub mod verif;
 
 use super::evaluate::Evaluator;
 use crate::board::{
@@ -108,6 +110,8 @@ impl Search {
     /// let mut search = Search::new(&board, &evaluator, None);
     /// ```
     pub fn search(&mut self, evaluator: &impl Evaluator, max_depth: Option<Depth>) {
+        #[cfg(rce_verif)]
+        verif::sched("search_entry");
         // Uses a heuristic to determine the maximum time to spend on a move
         self.limits.time_management_timer = match self.board.current_turn {
             Color::White => {
@@ -125,6 +129,8 @@ impl Search {
         self.iter_deep(evaluator, max_depth);
 
         self.stop();
+        #[cfg(rce_verif)]
+        verif::sched("search_exit");
     }
 
     /// Iterates through the search at increasing depths until the search is stopped or the maximum depth is reached
@@ -152,6 +158,10 @@ impl Search {
 
             let pv = self.get_pv(depth);
             self.log_uci_info(depth, Some(start.elapsed().as_millis()), &pv);
+            #[cfg(rce_verif)]
+            if depth == 1 {
+                verif::sched("first_iteration_done");
+            }
         }
 
         // An interrupted first iteration leaves no best move: fall back to the first legal move
@@ -159,12 +169,18 @@ impl Search {
             .info
             .best_move
             .or_else(|| self.original_board.get_legal_moves().first().copied());
+        #[cfg(rce_verif)]
+        verif::sched("before_flag_clear");
         // Once the answer is out the search no longer counts as running, so that the next go is accepted
         self.stop();
+        #[cfg(rce_verif)]
+        verif::sched("before_bestmove");
         match best_move {
             Some(ply) => self.log(format!("bestmove {ply}").as_str()),
             None => self.log("bestmove 0000"),
         }
+        #[cfg(rce_verif)]
+        verif::sched("after_bestmove");
     }
 
     /// Initializes the alpha-beta search and returns the best move found
@@ -270,6 +286,18 @@ impl Search {
 
         // Don't save incomplete searches
         if self.is_running() && !self.limits_exceeded(start) {
+            #[cfg(rce_verif)]
+            verif::on_insert(
+                self,
+                1,
+                self.board.zkey,
+                TTEntry {
+                    score: alpha,
+                    depth,
+                    bound: Bounds::Exact,
+                    best_ply,
+                },
+            );
             TRANSPOSITION_TABLE
                 .write()
                 .expect("Transposition table is poisoned! Unable to write new entry.")
@@ -333,6 +361,8 @@ impl Search {
             return 0; // Avoid threefold repetition at first repeitition
         }
 
+        #[cfg(rce_verif)]
+        verif::before_probe();
         // Check if we have more information in the TTable than we have already reached in this search
         if let Some(entry) = TRANSPOSITION_TABLE
             .read()
@@ -426,6 +456,18 @@ impl Search {
 
             // Move is too good, opponent will not allow the game to reach this position
             if score >= beta {
+                #[cfg(rce_verif)]
+                verif::on_insert(
+                    self,
+                    2,
+                    self.board.zkey,
+                    TTEntry {
+                        score,
+                        depth,
+                        bound: Bounds::Lower,
+                        best_ply: mv,
+                    },
+                );
                 TRANSPOSITION_TABLE
                     .write()
                     .expect("Transposition table is poisoned! Unable to write new entry.")
@@ -459,6 +501,22 @@ impl Search {
             return 0; // Stalemate
         }
 
+        #[cfg(rce_verif)]
+        verif::on_insert(
+            self,
+            3,
+            self.board.zkey,
+            TTEntry {
+                score: alpha,
+                depth,
+                bound: if alpha <= alpha_start {
+                    Bounds::Upper
+                } else {
+                    Bounds::Exact
+                },
+                best_ply,
+            },
+        );
         TRANSPOSITION_TABLE
             .write()
             .expect("Transposition table is poisoned! Unable to write new entry.")
@@ -778,6 +836,8 @@ impl Search {
     /// let running = search.check_running();
     /// ```
     pub fn is_running(&self) -> bool {
+        #[cfg(rce_verif)]
+        verif::on_poll(&self.running);
         self.running.load(Ordering::Relaxed)
     }
 }
